@@ -82,7 +82,8 @@ func (ec *ErrorCause) croppedJSON() []byte {
 	compactor.crop(0)
 
 	validErrorCauseJSON, err := json.Marshal(compactor.cause())
-	if err != nil {
+	if err != nil || len(validErrorCauseJSON) > MaxErrorCauseSizeBytes {
+		// JSON escaping can still expand the cropped strings beyond the limit
 		return nil
 	}
 
